@@ -436,7 +436,7 @@ def enc_input(py, inp, ids):
 
 
 def enc_elt(x, py, ids):
-    if x is py and not isinstance(py, (list, tuple)):
+    if x is py and py is not None and not isinstance(py, (list, tuple)):
         return ['self', 0]
     return tag(x, ids)
 
